@@ -105,7 +105,12 @@ def _run_one(m):
                 res['outcome'] = 'not-applicable'
                 res['detail'] = 'patch does not apply to the current tree: ' + r.stdout[:200]
                 return res
-            code, ctx, violations, known, error = run_property(m['prop'], 'quick', only=None, repo_root=tmp, quiet=True, write=False)
+            code, ctx, violations, known, error = run_property(m['prop'], 'quick', only=m.get('rule'), repo_root=tmp, quiet=True, write=False)
+            if m['expect'] == 'silent':
+                res['outcome'] = 'silent' if code == 0 else 'false-alarm(exit %d)' % code
+                if code != 0:
+                    res['detail'] = (error or '') + '; '.join('%s %s:%s %s' % (o.rule, o.file, o.line, o.how[:120]) for o in violations[:3])
+                return res
             res['outcome'] = 'detected' if violations else ('missed(exit %d%s)' % (code, ': ' + error[:200] if error else ''))
             if violations:
                 res['rule'] = ','.join(sorted(set(o.rule for o in violations)))
